@@ -353,10 +353,15 @@ bool prop(Tape &t, Report &R) {
         w[i] = std::max(0, r.maxX - r.minX), h[i] = std::max(0, r.maxY - r.minY);
         c.setCellWidth(w), c.setCellHeight(h);
         break;
-      default:
-        if (rows.size() > 1) rows.pop_back();
+      default: {
+        // rows may be handed over in any order
+        int how = t.choose(0, 2);
+        if (rows.size() > 1 && how == 0) std::reverse(rows.begin(), rows.end());
+        else if (rows.size() > 1 && how == 1) std::rotate(rows.begin(), rows.begin() + 1, rows.end());
+        else if (rows.size() > 1) rows.pop_back();
         else rows[0] = Row(rows[0].minX, rows[0].maxX + 1, rows[0].minY, rows[0].maxY, rows[0].orientation);
         c.setRows(rows);
+      }
     }
     R.classify(std::string("history:") + rn[route]);
     std::string when = std::string("after a ") + rn[route] + " call on a circuit whose rows were computed before: ";
